@@ -220,6 +220,36 @@ def sec_control(ctx, rng, case):
             got = cirq.Circuit(o).final_state_vector(initial_state=psi.astype(np.complex128), qubit_order=cq + tq, dtype=np.complex128)
             ctx.check(L.allclose(got, want @ psi, 1e-7), "controlled-action==block-matrix", "C08:controlled-action:" + name,
                       lambda: "%s applied to a state deviates from the block matrix by %.3g" % (what, L.maxdiff(got, want @ psi)), via=what, **wit)
+    # equality between controlled forms of one sub-operation on the same controls: equal only if they fire on the same
+    # control states (a second value set is drawn with the same per-control value multisets, differently paired)
+    if k == 2:
+        allp = list(itertools.product(*[range(d) for d in cdims]))
+        nt = int(rng.integers(1, min(3, len(allp)) + 1))
+        A_ = sorted({allp[int(i)] for i in rng.choice(len(allp), size=nt, replace=False)})
+        col = [t[1] for t in A_]
+        B_ = sorted({(t[0], col[int(j)]) for t, j in zip(A_, rng.permutation(len(A_)))}) if rng.random() < 0.7 else \
+            sorted({allp[int(i)] for i in rng.choice(len(allp), size=nt, replace=False)})
+        sub = g.on(*tq)
+        for form in ("ControlledOperation", "controlled_by", "controls-reversed"):
+            if form == "ControlledOperation":
+                o1 = cirq.ControlledOperation(cq, sub, control_values=cirq.SumOfProducts(A_))
+                o2 = cirq.ControlledOperation(cq, sub, control_values=cirq.SumOfProducts(B_))
+            elif form == "controlled_by":
+                o1 = sub.controlled_by(*cq, control_values=cirq.SumOfProducts(A_))
+                o2 = sub.controlled_by(*cq, control_values=cirq.SumOfProducts(B_))
+            else:
+                o1 = cirq.ControlledOperation(cq, sub, control_values=cirq.SumOfProducts(A_))
+                o2 = cirq.ControlledOperation(cq[::-1], sub, control_values=cirq.SumOfProducts([t[::-1] for t in B_]))
+            same_m = L.allclose(L.controlled(U, cdims, A_), L.controlled(U, cdims, B_), 1e-9)
+            w3 = dict(wit, form=form, values_a=A_, values_b=B_)
+            if o1 == o2:
+                ctx.check(same_m and hash(o1) == hash(o2), "eq=>same-matrix-and-hash", "C08:eq-unsound:controlled-values",
+                          "controlled operations compare equal although they fire on different control states (or hash differently)", **w3)
+            else:
+                ctx.event("controlled-eq-false" + (":same-matrix" if same_m else ""))
+            if cirq.approx_eq(o1, o2, atol=1e-8) or cirq.equal_up_to_global_phase(o1, o2, atol=1e-8):
+                ctx.check(L.phase_diff(L.controlled(U, cdims, A_), L.controlled(U, cdims, B_)) <= 1e-6 + _ISCLOSE_RTOL, "approx_eq=>close-matrices",
+                          "C08:approx-eq-unsound:controlled-values", "approximately equal controlled operations with different matrices", **w3)
     # control-values algebra: expand() enumerates exactly the allowed tuples; validate accepts matching shapes
     cvobj = cg.control_values if isinstance(cg, cirq.ControlledGate) and cg.num_controls() == k else None
     if cvobj is not None:
